@@ -128,6 +128,14 @@ func isDistributive(expr *parser.Expr) bool {
 		// data set. This is why we cannot push down aggregations where
 		// the operand is a binary expression.
 		return false
+	case *parser.Call:
+		// absent() and absent_over_time() depend on all series at once: a remote
+		// engine without matching series would report them absent. A function
+		// called without its vector argument, such as hour() or year(), evaluates
+		// vector(time()): one sample, not one per remote engine.
+		if aggr.Func.Name == "absent" || aggr.Func.Name == "absent_over_time" || len(aggr.Args) == 0 {
+			return false
+		}
 	case *parser.AggregateExpr:
 		// Certain aggregations are currently not supported.
 		if _, ok := distributiveAggregations[aggr.Op]; !ok {
